@@ -300,9 +300,9 @@ class Token(MutableSequence[TK]):
         """
         start, end = self.span
         try:
-            if before and start > 0 and self.parser.source[start - 1] in ' \t\n':
+            if before and start > 0 and self.parser.source[start - 1] in ' \t\n\r':
                 return True
-            return after and self.parser.source[end] in ' \t\n'
+            return after and self.parser.source[end] in ' \t\n\r'
         except IndexError:
             return False
 
